@@ -96,7 +96,9 @@ def run_doc(src, cols):
     t = TeX()
     t.ownerDocument.config['document']['index-columns'] = cols
     t.input(src)
-    d = t.parse()
+    from util import time_limit
+    with time_limit(20):
+        d = t.parse()
     return d, d.getElementsByTagName('printindex')[0]
 
 
